@@ -111,31 +111,44 @@ class Dataset:
         return self.axis_exp[None, :] + 2.0 * self.axis_curv[None, :] * x
 
     # ------------------------------------------------------------------ files
-    def write(self, d: Path, fmt_settings="yaml", table_cols=None, upper=False):
+    def write(self, d: Path, fmt_settings="yaml", table_cols=None, upper=False, pres=None):
+        """pres: optional re-presentation {vol_perm, q_perm, mode_perms {q: perm}, w_scale, col_perm, upper, row_perm}"""
+        pres = pres or {}
         d = Path(d)
         d.mkdir(parents=True, exist_ok=True)
         fr = self.freq(self.volumes)
         lines = ["synthetic", "", "nv nq np nm na", f"{self.nv} {self.nq} {self.np} 1 {self.nat}", ""]
         pst = -numpy.gradient(self.energies) / numpy.gradient(self.volumes) * consts.RY_BOHR3_TO_GPA * 10.0
-        for i, v in enumerate(self.volumes):
+        vperm = pres.get("vol_perm") or list(range(self.nv))
+        qperm = pres.get("q_perm") or list(range(self.nq))
+        mperms = pres.get("mode_perms") or {}
+        wscale = pres.get("w_scale", 1.0)
+        for i in vperm:
+            v = self.volumes[i]
             lines.append(f"P= {pst[i]:.8f} V= {v:.10f} E= {self.energies[i]:.12f}")
-            for q in range(self.nq):
+            for q in qperm:
                 lines.append(" ".join(f"{c:.8f}" for c in self.qcoords[q]))
-                for m in range(self.np):
+                for m in (mperms.get(q) or range(self.np)):
                     lines.append(f"{fr[i, q, m]:.10f}")
         lines += ["", "weight"]
-        for q in range(self.nq):
-            lines.append(" ".join(f"{c:.8f}" for c in self.qcoords[q]) + f" {self.weights[q]:.8f}")
+        for q in qperm:
+            lines.append(" ".join(f"{c:.8f}" for c in self.qcoords[q]) + f" {self.weights[q] * wscale:.8f}")
         (d / "input01").write_text("\n".join(lines) + "\n")
         cols = table_cols or self.keys
+        if pres.get("col_perm"):
+            cols = [cols[i] for i in pres["col_perm"]]
+        upper = upper or bool(pres.get("upper"))
         names = [("C%d%d" if upper else "c%d%d") % k for k in cols]
         t = ["synthetic static table", f"{self.vref:.8f} {self.nv_static} {self.cellmass:.6f}", "V " + " ".join(names)]
-        for v in self.static_volumes:
+        rperm = pres.get("row_perm") or list(range(self.nv_static))
+        for i in rperm:
+            v = self.static_volumes[i]
             t.append(f"{v:.10f} " + " ".join(f"{self.static_gpa(k, numpy.array([v]))[0]:.10f}" for k in cols))
         if self.lattice:
             t.append("lattice parameters")
-            for row in self.axes(self.static_volumes):
-                t.append(" ".join(f"{x:.12f}" for x in row))
+            ax = self.axes(self.static_volumes)
+            for i in rperm:
+                t.append(" ".join(f"{x:.12f}" for x in ax[i]))
         (d / "elast.dat").write_text("\n".join(t) + "\n")
         cfg = self.config()
         if fmt_settings == "yaml":
